@@ -60,3 +60,18 @@ def generate(rng, n, tier, pid):
 
 
 shrink_candidates = fam_chunk.shrink_candidates
+
+
+def semantic(case, obs, is_model):
+    """The chunk sequence (kind, end offset, data) -- not where the data lies."""
+    out = []
+    for f in obs[0::2]:
+        if not f:
+            continue
+        if f[0] == 0 and len(f) > 5:
+            out.append([0, f[1]] + f[6:])
+        elif f[0] in (1, 2, 98, 99):
+            out.append(f[:2])
+        if f[0] == 2:
+            break
+    return out
